@@ -807,6 +807,8 @@ do_op(const struct op *o, int idx)
 
         if (!path) return -1;
         if (opts & LYD_NEW_VAL_BIN) return -1;
+        /* a slot may hold an unlinked nested subtree: new top-level nodes would be linked next to it unchecked */
+        if (slot[s] && slot[s]->schema && lysc_data_parent(slot[s]->schema) && (path[0] == '/')) return -1;
         rc = lyd_new_path(slot[s], ctx, path, val, opts, &node);
         OUT_CHECK(rc, node);
         if (slot[s]) {
@@ -829,6 +831,7 @@ do_op(const struct op *o, int idx)
         if (path[0] == '/') {
             /* absolute path: the library links a new top-level node next to `parent` without looking where that is */
             par = slot[s];
+            if (par && par->schema && lysc_data_parent(par->schema)) return -1;
         } else if (!is_inner(par)) {
             return -1;
         }
@@ -1508,6 +1511,7 @@ leak_site(int leak, char *buf, size_t size)
     ssize_t n;
     char *p, *q;
     size_t k = 0;
+    int frames = 0;
 
     snprintf(buf, size, "-");
     if (!leak || (errfd < 0)) {
@@ -1520,17 +1524,22 @@ leak_site(int leak, char *buf, size_t size)
     rep[n] = 0;
     p = strstr(rep, "leak of ");
     p = p ? strchr(p, '\n') : NULL;
-    while (p && (p = strstr(p, " in "))) {
+    q = p ? strstr(p, "\n\n") : NULL;
+    while (p && (p = strstr(p, " in ")) && (!q || (p < q)) && (frames < 3)) {
+        const char *e;
+
         p += 4;
         if (!strncmp(p, "__interceptor", 13) || !strncmp(p, "malloc", 6) || !strncmp(p, "calloc", 6) || !strncmp(p, "realloc", 7) ||
-                !strncmp(p, "strdup", 6) || !strncmp(p, "strndup", 7) || !strncmp(p, "ly_realloc", 10) || !strncmp(p, "__interceptor_", 14)) {
+                !strncmp(p, "strdup", 6) || !strncmp(p, "strndup", 7) || !strncmp(p, "ly_realloc", 10)) {
             continue;
         }
-        for (q = p; *q && (*q != ' ') && (*q != '\n') && (k < size - 1); q++) {
-            buf[k++] = *q;
+        if (frames++ && (k < size - 1)) {
+            buf[k++] = '<';
+        }
+        for (e = p; *e && (*e != ' ') && (*e != '\n') && (k < size - 1); e++) {
+            buf[k++] = *e;
         }
         buf[k] = 0;
-        break;
     }
 }
 
